@@ -377,6 +377,9 @@ func strLenGen(thorough bool) *rapid.Generator[int] {
 	gens := []*rapid.Generator[int]{
 		rapid.IntRange(0, 8), rapid.IntRange(0, 8), rapid.IntRange(0, 40),
 		rapid.SampledFrom([]int{0, 1, 127, 128, 129, 255, 256}),
+		// rarely (1 value in 40): the second boundary of the length prefix
+		rapid.OneOf(rapid.IntRange(0, 8), rapid.IntRange(0, 8), rapid.IntRange(0, 8), rapid.IntRange(0, 8), rapid.IntRange(0, 8), rapid.IntRange(0, 8), rapid.IntRange(0, 8),
+			rapid.SampledFrom([]int{16383, 16384, 16385})),
 	}
 	return rapid.OneOf(gens...)
 }
